@@ -1,6 +1,6 @@
 SPECIFICATION Spec
 CONSTANTS
-  FsNames <- PlainNamesL
+  FsNames <- PlainNames
   ExtSets <- Exts4
   InitSet <- InitAll
   Target <- T
